@@ -15,7 +15,7 @@ RULE = ('reference datetimes 1950-2090 (Hypothesis datetimes mixed 50% with an e
 ASSUMPTIONS = ['stdlib datetime/timedelta/isocalendar is the oracle']
 TD = dt.timedelta
 WD = ['monday', 'tuesday', 'wednesday', 'thursday', 'friday', 'saturday', 'sunday']
-CARRIERS = ['{}', '{}', 'I will be back {}', 'it happened {} as far as I know']
+CARRIERS = ['{}', '{}', 'I will be back {}', 'it happened {} as far as I know', '{}.', 'I will be back {}, see page 4.']
 
 
 def addm(y, m, k):
@@ -113,13 +113,13 @@ FAMILIES_PLAIN = ['today', 'tomorrow', 'yesterday', 'now'] + ['%s %s' % (w, u) f
 
 def all_families(ref, ns=(1, 7, 31, 366), carrier_i=0):
     for f in FAMILIES_PLAIN:
-        yield {'family': f, 'ref': ref, 'carrier': CARRIERS[carrier_i % 4]}
+        yield {'family': f, 'ref': ref, 'carrier': CARRIERS[carrier_i % 6]}
     for f in FAMILIES_N:
         for n in ns:
-            yield {'family': f, 'n': n, 'ref': ref, 'carrier': CARRIERS[(carrier_i + n) % 4]}
+            yield {'family': f, 'n': n, 'ref': ref, 'carrier': CARRIERS[(carrier_i + n) % 6]}
     for f in FAMILIES_WD:
         for wd in range(7):
-            yield {'family': f, 'wd': wd, 'ref': ref, 'carrier': CARRIERS[(carrier_i + wd) % 4]}
+            yield {'family': f, 'wd': wd, 'ref': ref, 'carrier': CARRIERS[(carrier_i + wd) % 6]}
 
 
 def boundary_enum(step):
@@ -138,7 +138,7 @@ def cases():
         st.sampled_from(FAMILIES_PLAIN).map(lambda f: {'family': f}),
         st.builds(lambda f, n: {'family': f, 'n': n}, st.sampled_from(FAMILIES_N), ns),
         st.builds(lambda f, w: {'family': f, 'wd': w}, st.sampled_from(FAMILIES_WD), st.integers(0, 6)))
-    return st.builds(lambda c, r, ci: dict(c, ref=r, carrier=CARRIERS[ci]), fam, G.refs(), st.integers(0, 3))
+    return st.builds(lambda c, r, ci: dict(c, ref=r, carrier=CARRIERS[ci]), fam, G.refs(), st.integers(0, 5))
 
 
 def parts(tier, seed):
